@@ -2,7 +2,7 @@
 the conformance pipelines, probes known-finding witnesses.  Returns the level category."""
 import json, os
 
-from . import common, iterp, randgen, rowsp, tlc, vmp
+from . import common, compilep, iterp, randgen, rowsp, tlc, vmp
 from .common import ToolError, log, pats, read_ndjson, texts
 
 CHECKS = {}
@@ -330,6 +330,33 @@ def c14(ctx):
     return "model_checking"
 
 
+@check("C19")
+def c19(ctx):
+    excl = "".join(common.excl_classes("C19"))
+    ctx.rule = ("records = (base pattern, style, spelling) with spellings GENERATED by Spell.tla (free-spacing + comments, (?#..) comments, (?<n>)/(?P<n>) groups "
+                "with \\k<n>/(?P=n), relative \\k<-n>, inline vs scoped flags, \\xHH / \\x{..} / \\uHHHH escapes, possessive vs atomic, \\A \\z vs ^ $, and all "
+                "combined); every spelling is compiled and run over all cells; TLC requires its rows = RefSem of the BASE pattern (hence identical within a "
+                "class) and, where the tree is defined to be the same, the same parser tree (hash of the Debug rendering) as the plain spelling; "
+                "non-trivial = matching cells")
+    t3 = texts("sig6", 3)
+    sp = []
+    for n in (1, 2, 3):
+        sp += read_ndjson(common.export("spell_core_%d" % n, "spell", n, prof="core"))
+    spcf = read_ndjson(common.export("spell_ctxfill_0", "spell", 0, prof="ctxfill"))
+    spcase = read_ndjson(common.export("spell_case_3", "spell", 3, prof="case"))
+    if ctx.quick:
+        spaces = [("spell_pat123", renumber_ids(sample(ctx, sp, 2500))), ("spell_ctxfill", renumber_ids(sample(ctx, spcf, 2000))), ("spell_case3", renumber_ids(sample(ctx, spcase, 800)))]
+    else:
+        spaces = [("spell_pat123", renumber_ids(sp)), ("spell_ctxfill", spcf), ("spell_case3", spcase),
+                  ("spell_pat4", renumber_ids(sample(ctx, read_ndjson(common.export("spell_core_4", "spell", 4, prof="core")), 40000)))]
+    for name, recs in spaces:
+        rowsp.run_rows(ctx, name, recs, texts("case4", 3) if "case" in name else t3, "caps", excl)
+    probe_known(ctx, "caps")
+    ctx.exhaustive = False
+    ctx.assumptions = ROWS_ASSUME + ["Spell.tla is a generative model: only spellings it produces are covered (the parser is not modelled as a recogniser)"]
+    return "model_checking"
+
+
 @check("C20")
 def c20(ctx):
     ctx.rule = ("model: every operation sequence (create alternative, abandon, write slot, push/pop auxiliary stack, commit to any earlier count) up to the bound over "
@@ -594,6 +621,71 @@ def c05(ctx):
     return "model_checking"
 
 
+@check("C06")
+def c06(ctx):
+    ctx.rule = ("inputs = every sequence of up to N fragments of the 111-fragment vocabulary of Contract.tla (exported by TLC), the amplification family "
+                "opener^k body closer^k for k in {64, 1000, 100000}, seeded random longer sequences and mutations of valid patterns; each is passed to "
+                "Regex::new in a child process (debug build: overflow checks on; 2 GiB address-space limit; CPU limit) under catch_unwind; TLC checks the "
+                "contract on every recorded outcome (Ok or Err, error position <= length, time budget); a dead child is the outcome `abort` of the input "
+                "it was processing; distinct non-trivial = inputs that reach an Err or compile (all do, by the contract)")
+    common.build_harness("debug")
+    n = 2 if ctx.quick else 3
+    vocab = read_ndjson(common.export("vocab_%d" % n, "vocab", n, timeout=3600))
+    amp = read_ndjson(common.export("amp", "amp", 0))
+    voc = [v["toks"][0] for v in read_ndjson(common.export("vocab_1", "vocab", 1)) if v["toks"]]
+    rnd = []
+    for i in range(6000 if ctx.quick else 200000):
+        rnd.append(dict(id=i + 1, toks=[ctx.rng.choice(voc) for _ in range(ctx.rng.randint(n + 1, 12))]))
+    # mutations of valid patterns: take spellings from Spell.tla and insert/delete/replace one fragment
+    sp = read_ndjson(common.export("spell_core_3", "spell", 3, prof="core"))
+    mut = []
+    for i in range(3000 if ctx.quick else 60000):
+        t = list(ctx.rng.choice(sp)["toks"])
+        op = ctx.rng.randrange(3)
+        pos = ctx.rng.randrange(len(t) + 1)
+        if op == 0 or not t:
+            t.insert(pos, ctx.rng.choice(voc))
+        elif op == 1:
+            t.pop(min(pos, len(t) - 1))
+        else:
+            t[min(pos, len(t) - 1)] = ctx.rng.choice(voc)
+        mut.append(dict(id=i + 1, toks=t))
+    known = {w["what_key"]: f for f in common.open_findings("C06") for w in f.get("witnesses", []) if w.get("kind") == "compile"}
+    d = common.workdir("C06")
+    for name, recs in (("vocab_le%d" % n, vocab), ("amplified", amp), ("random", rnd), ("mutations", mut)):
+        outs = compilep.run_inputs(ctx, name, recs)
+        shards = 16 if len(outs) > 5000 else 2
+        prefix = os.path.join(d, name + ".out")
+        common.clean_prefix(prefix)
+        files = [open("%s.%d.ndjson" % (prefix, i), "w") for i in range(shards)]
+        for i, o in enumerate(outs):
+            files[i % shards].write(json.dumps(o) + "\n")
+        for f in files:
+            f.close()
+        rs = tlc.run_shards("TraceContract", [dict(VH_RECS="%s.%d.ndjson" % (prefix, i)) for i in range(shards)])
+        tlc.require_clean(rs, "TraceContract(%s)" % name)
+        ctx.add_tlc(rs)
+        st = {}
+        for r in rs:
+            for k, v in r.tagged("STATS")[0].items():
+                st[k] = st.get(k, 0) + v
+            for j in r.tagged("REJECT"):
+                ctx.violation("Regex::new(%s): outcome %s (pos %s, len %s, %s ms, %s) violates the compile contract" % (j["what"], j["st"], j["pos"], j["len"], j["ms"], j["ek"]),
+                              dict(kind="compile", space=name, input=[x for x in recs if x["id"] == j["id"]][:1], got=j))
+        if st["records"] != len(recs):
+            raise ToolError("TraceContract(%s): %d of %d outcomes validated" % (name, st["records"], len(recs)))
+        ctx.cov.setdefault("spaces", {})[name] = st
+        ctx.traces += st["ok"]
+        ctx.evaluations += st["records"]
+        ctx.nontrivial += st["compile_ok"] + st["compile_err"]
+        ctx.samples.append(dict(space=name, input=recs[len(recs) // 3], outcome={k: outs[len(recs) // 3][k] for k in ("st", "pos", "len", "ms", "ek")}))
+    ctx.exhaustive = True
+    ctx.cov["exhaustive_note"] = "fragment sequences up to length %d are enumerated completely; amplified, random and mutated inputs are finite families/samples" % n
+    ctx.assumptions = ["exploration: the TLA+ model supplies the input space and the contract; it does not predict panics, overflow, allocation or native stack depth",
+                       "address-space limit 2 GiB and CPU limit per child stand in for 'time and memory proportional to the pattern'"]
+    return "exploration"
+
+
 @check("C07")
 def c07(ctx):
     ctx.rule = ("limit records = per (pattern, text, offset): the unlimited search with hook statistics (backtracks B, instructions) and the same search under "
@@ -803,6 +895,16 @@ def replay(ctx, path):
         rej = rs[0].tagged("REJECT")
         print(json.dumps(rej, indent=1))
         if rej:
+            print("VIOLATION property=%s replay=%s" % (ctx.prop, path))
+            return 1
+        return 0
+    if d.get("kind") == "compile":
+        common.build_harness("debug")
+        sub = common.Ctx(ctx.prop, ctx.tier, ctx.seed)
+        outs = compilep.run_inputs(sub, "replay", d["input"])
+        print(json.dumps(outs, indent=1))
+        bad = [o for o in outs if o["st"] not in ("ok", "err") or (o["st"] == "err" and o["pos"] > o["len"]) or o["ms"] > 5000 + o["len"]]
+        if bad:
             print("VIOLATION property=%s replay=%s" % (ctx.prop, path))
             return 1
         return 0
